@@ -80,9 +80,17 @@ def rules(ctx):
     for key, tag in (("server::solve_instance", "R2.server"), ("internal::run", "R2.internal")):
         before = len(ctx.obligations)
         chain(ctx, key, tag)
-        keep = [o for o in ctx.obligations[before:] if o.id.endswith(("flow-07-reassign-end-depots", "flow-08-final-info", "flow-09-final-evaluate",
+        keep = [o for o in ctx.obligations[before:] if o.id.endswith(("flow-07-reassign-end-depots", "flow-07b-alignment-unconditional", "flow-08-final-info", "flow-09-final-evaluate",
                                                                        "flow-10-output", "flow-11-return", "flow-12-nothing-after-alignment"))]
         ctx.obligations[before:] = keep
+    # R3: every rotation cycle is reported, in rotation order (shared with C03.R2)
+    from . import C03
+    before = len(ctx.obligations)
+    C03.completeness(ctx)
+    ctx.obligations[before:] = [o for o in ctx.obligations[before:] if "rotation-cycle" in o.id]
+    for o in ctx.obligations[before:]:
+        o.id = o.id.replace("C05/R2.", "C05/R3.")
+    C03.cycle_order_preserved(ctx, "R3")
     # R3: JSON reads vehicles and cycles from the same schedule
     o, fd = ctx.require_fn("R3.fleet-json-same-schedule", "T1", JS + "::fleet_to_json",
                            "vehicle_cycles and vehicles of a fleet are read from the same schedule, for the same vehicle type")
